@@ -129,7 +129,7 @@ let run (t : string list) : string =
           (match R.body_status e s m with Some n -> string_of_n n | None -> "-")
           (string_of_n (R.http_status_of_error e s m)) in
       Printf.sprintf "json{%s} text{%s} arrow{%s} #K:%s" (one R.EJson) (one R.EText) (one R.EArrow)
-        (if R.http_known s then "HttpStatusSniffedFromBody" else "-")
+        (if R.http_known s m then "HttpStatusLongErrorBodyUnparsed" else "-")
   | _ -> "UNKNOWN_PROBE"
 
 let init () = Registry.register "render_" run
